@@ -2,8 +2,8 @@
 import os, sys, json, time, hashlib, re, traceback, collections, multiprocessing
 
 ROOT = os.path.dirname(os.path.dirname(os.path.abspath(__file__)))
-EVID = os.path.join(ROOT, "evidence")
-REPL = os.path.join(ROOT, "replays")
+EVID = os.environ.get("VERIF_EVIDENCE_DIR") or os.path.join(ROOT, "evidence")      # overridden only by the mutant self-test
+REPL = os.environ.get("VERIF_REPLAY_DIR") or os.path.join(ROOT, "replays")
 KNOWN = os.path.join(ROOT, "known_findings.json")
 
 
@@ -206,7 +206,7 @@ def run_property(mod, tier, replay=None):
             continue
         seen.add(clause)
         os.makedirs(REPL, exist_ok=True)
-        path = os.path.join("replays", "%s-%s.json" % (pid, digest(v["case"])))
+        path = os.path.join(os.path.relpath(REPL, ROOT) if REPL.startswith(ROOT) else REPL, "%s-%s.json" % (pid, digest(v["case"])))
         with open(os.path.join(ROOT, path), "w") as f:
             json.dump(dict(property=pid, clause=clause, findings=v["findings"][:5], case=v["case"], confirmed_on=v.get("confirmed_on")), f, indent=1, default=str)
         print("  finding: %s" % json.dumps(v["findings"][0], default=str)[:800])
